@@ -18,10 +18,33 @@ type mergeOp struct{}
 // anything else).  Merges on behalf of other tasks are not affected.
 var mergeRefuseTask *simrt.Task
 
+// mergeRefuseBg: number of merges of background tasks still to be refused;
+// mergeRefusedBg counts the refusals that happened (reach probe).
+var mergeRefuseBg, mergeRefusedBg int
+
+// oracleDepth > 0 while the harness itself reads inside one of moss's tasks
+// (round callback): those reads are never refused.  mergeRefusedHook lets the
+// run count a refusal as an injected fault.
+var oracleDepth int
+var mergeRefusedHook func()
+
 func (mergeOp) Name() string { return "verif-append" }
 func (mergeOp) FullMerge(key, existing []byte, operands [][]byte) ([]byte, bool) {
 	if mergeRefuseTask != nil && simrt.Cur() == mergeRefuseTask {
 		return nil, false
+	}
+	if mergeRefuseBg > 0 {
+		// the next merge asked for by a background task (merger cycle,
+		// persistence round, compaction) is refused once: that cycle or round
+		// fails and is retried
+		if t := simrt.Cur(); t != nil && !t.Driver && oracleDepth == 0 {
+			mergeRefuseBg--
+			mergeRefusedBg++
+			if mergeRefusedHook != nil {
+				mergeRefusedHook()
+			}
+			return nil, false
+		}
 	}
 	// The "keep" operand ("=") leaves the value as it is: with only such
 	// operands the operator hands back the very slice it was given (as a max
